@@ -257,9 +257,11 @@ def oracle(ctx: Ctx, deep: bool = False):
     for name in G.GENERATORS:
         modes = G.modes_of(name)
         for k in range(per_gen):
-            spec = G.sample_case(rng, name, mode=modes[k % len(modes)], multi=0.4)
+            spec = G.sample_case(rng, name, mode=modes[k % len(modes)], multi=0.4, options=0.4)
             if spec is None:
                 continue
+            if G.risky(spec):         # the `_poisson` active-list overrun is C04/C07's finding, not an ACS matter
+                spec["extra"]["max_attempts"] = 5
             if name in ("Radial", "Spiral") and rng.random() < 0.3 and not isinstance(spec["acc"], list):
                 spec["cf"] = None
             acs, mask = run(dict(spec, return_acs=True)), run(dict(spec, return_acs=False))
